@@ -52,6 +52,15 @@ def execute(spec, external_cancel_at=None, sample=None):
                     # the window of the top scheduler is edited between the two runs: the second run obeys the new one
                     b.top.jobs_window = spec['rerun_window']
                     b.spec[b.top.name]['window'] = spec['rerun_window']
+                for js in spec.get('rerun_add') or []:
+                    # jobs added to the top scheduler between the two runs
+                    o = vloop.SJob(js['name'], b.trace, duration=js.get('duration', 1.0), outcome=js.get('outcome', 'ret'),
+                                   critical=js.get('critical', False), forever=js.get('forever', False))
+                    b.top.add(o)
+                    b.objs[js['name']] = o
+                    b.spec[js['name']] = js
+                    b.parent[js['name']] = b.top.name
+                    b.members[b.top.name].append(js['name'])
                 ed = spec.get('rerun_edge')
                 if ed:
                     S, i, j = ed
@@ -460,6 +469,24 @@ def o_c09(v):
                 return '%s: forever job %s outlives the run (run over at tick %d, vt %s)' % (S, m, end[0], end[1])
         if end[1] > last[1] + slack(v, S) + 1e-9:
             return '%s: run ended at %s, not as soon as its last regular job finished (%s)' % (S, end[1], last[1])
+    # "forever jobs never outlive the run", at any depth: once the top-level run has returned nothing that is a
+    # forever job, or lies inside a forever nested scheduler, is still going
+    top = v.b.top.name
+    tend = run_end_event(v, top)
+    if tend is not None and tend[2] == 'exit-ret':
+        def forever_here(x):
+            while x in v.b.parent:
+                if v.b.spec[x].get('forever'):
+                    return True
+                x = v.b.parent[x]
+            return False
+        for x in v.under(top):
+            if v.is_sched(x) or not forever_here(x):
+                continue
+            en, fin = v.first(x, 'enter'), v.end(x)
+            if en is not None and (fin is None or fin[0] > tend[0]):
+                return 'forever job %s (or a job of a forever nested scheduler) outlives the top-level run (over at tick %d, vt %s)' % (
+                    x, tend[0], tend[1])
     return None
 
 
